@@ -108,17 +108,28 @@ theorem wr_inv_front (cx : Ctx) (x : L2.Obj) (hi : L2.ObjInv x) (hx : L2Front x)
   | ppi p => exact hx.elim
   | pktap p => exact hx.elim
 
+/-- the re-parsed layer has the trailer of the original one when the inner size is the same — unless the original was a Dot1Q
+    that actually padded on behalf of `append_padding_` -/
+theorem trl_wr_keep (cx : Ctx) (x : L2.Obj) (n : Nat)
+    (h : ∀ q, x = .dot1q q → q.appendPadding = true → L2.trl x n = 0) : L2.trl (L2.wr cx x) n = L2.trl x n := by
+  cases x with
+  | dot1q q =>
+    cases hq : q.appendPadding with
+    | false => simp [L2.wr, L2.trl, L2.Dot1Q.trl, hq]
+    | true => rw [h q rfl hq]; simp [L2.wr, L2.trl, L2.Dot1Q.trl]
+  | _ => rfl
+
 /-- **link layer: the step, once the re-parsed object is identified** -/
-theorem l2_fix (cx cx' : Ctx) (x : L2.Obj) (os os' : List AnyObj) (hinv : L2.ObjInv x) (hser : L2.Serializable x)
+theorem l2_fix (cx cx' : Ctx) (x : L2.Obj) (os os' : List AnyObj) (k e2 : Nat) (hinv : L2.ObjInv x) (hser : L2.Serializable x)
     (hwi : L2.ObjInv (L2.wr cx x) ∧ L2.Serializable (L2.wr cx x))
-    (hna : ∀ q, x = .dot1q q → q.appendPadding = false)
+    (hna : ∀ q, x = .dot1q q → q.appendPadding = true → e2 = L2.trl x (sizeOfStack os) + k)
     (hstp : ∀ l, x = .llc l → cx.innerCls ≠ some "STP")
     (hcx : cx.innerSize = sizeOfStack os) (hcx' : cx'.innerSize = sizeOfStack os')
     (region io : Bytes) (hlen : region.length = L2.hdr x + sizeOfStack os + L2.trl x (sizeOfStack os))
     (hio : (region.drop (L2.hdr x)).take (sizeOfStack os) = io)
-    (out : Bytes) (hw : L2.write cx x region = .ok out) (k : Nat) (hk0 : ¬ L2.EtherTier x → k = 0)
+    (out : Bytes) (hw : L2.write cx x region = .ok out) (hk0 : ¬ L2.EtherTier x → k = 0)
     (hsim : CtxSimA cx cx')
-    (e2 : Nat) (he2 : e2 = 0 ∨ (e2 = L2.trl x (sizeOfStack os) + k ∧ cut (.l2 x) e2 = e2))
+    (he2 : e2 = 0 ∨ (e2 = L2.trl x (sizeOfStack os) + k ∧ cut (.l2 x) e2 = e2))
     (hsz : sizeOfStack os' = sizeOfStack os + e2) :
     FixStep (.l2 x) (.l2 (L2.wr cx x)) os os' cx' io out k e2 := by
   -- the first serialization in closed form
@@ -145,14 +156,18 @@ theorem l2_fix (cx cx' : Ctx) (x : L2.Obj) (os os' : List AnyObj) (hinv : L2.Obj
       ⟨fun d hd => by rw [hcx, hcx', hsz, hsame.1 d hd]; rfl, fun p hp' => by rw [hcx, hcx', hsz, hsame.2 p hp']; rfl⟩ hstp
   have hhdr : L2.hdr (L2.wr cx x) = L2.hdr x := L2.wr_hdr cx x
   -- the trailer of the re-parsed layer
+  have hsame0 : e2 = 0 → L2.trl (L2.wr cx x) (sizeOfStack os) = L2.trl x (sizeOfStack os) := by
+    intro h0
+    apply trl_wr_keep
+    intro q hq hqa
+    have := hna q hq hqa
+    omega
   have htr : L2.trl (L2.wr cx x) (sizeOfStack os') + e2 = L2.trl x (sizeOfStack os) + (if e2 = 0 then 0 else k) := by
     rcases he2 with h | ⟨h, _⟩
-    · subst h
-      rw [hsz, Nat.add_zero, L2.trl_wr_same cx x _ hna]
+    · rw [hsz, h, Nat.add_zero, Nat.add_zero, hsame0 h]
       simp
     · by_cases h0 : e2 = 0
-      · subst h0
-        rw [hsz, Nat.add_zero, L2.trl_wr_same cx x _ hna]
+      · rw [hsz, h0, Nat.add_zero, Nat.add_zero, hsame0 h0]
         simp
       · rw [hsz, h, L2.trl_wr_absorb cx x (sizeOfStack os) k]
         rw [h] at h0
